@@ -14,6 +14,7 @@ CONTROLS = {
                ("BoolOp.mc.cfg", {"Bug": '"or_last_only"'}, "ContractHolds"),
                ("BoolOp.mc2.cfg", {"AsShipped_N1": "TRUE"}, "ContractHolds"),
                ("BoolOp.mc9.cfg", {"Bug": '"publish_under_lock"'}, "ContractHolds"),
+               ("BoolOp.mc2.cfg", {"Bug": '"dup_counter"'}, "ContractHolds"),
                # (three inputs at micro-operation granularity: 2 minutes, thorough tier only)
                ("BoolOp.mc6.cfg", {"Bug": '"pop_before_lock"'}, "ContractHolds", "thorough")],
     "CancelOnShutdown": [("CancelOnShutdown.mc.cfg", {"Bug": '"no_track"'}, "ContractHolds"),
